@@ -134,7 +134,18 @@ fn read_lines(text: &str, z: Option<f64>, t: Option<f64>) -> Vec<[f64; 4]> {
     out
 }
 
+/// Spellings of input values for operations without a domain: signs, sexagesimal with a zero
+/// degree field, hemisphere letters in both cases, exponents
+const FREE_VALUES: [&str; 16] = [
+    "-0:30:00", "-0:15:36", "0:30:00S", "0:15:36w", "-1:30:36", "12:30W", "12:30:15.5n", "1e3", "-0.5", "+2.5", ".5", "5.", "-0", "0:0:36",
+    "1:30", "-12:00:00.25E",
+];
+
 fn gen_input(rng: &mut Rng, nlines: usize, fixed_cols: Option<usize>) -> String {
+    gen_input_for(rng, nlines, fixed_cols, false)
+}
+
+fn gen_input_for(rng: &mut Rng, nlines: usize, fixed_cols: Option<usize>, free: bool) -> String {
     let mut s = String::with_capacity(nlines * 40);
     let ncols_file = fixed_cols.unwrap_or(2 + rng.below(3));
     for i in 0..nlines {
@@ -149,7 +160,9 @@ fn gen_input(rng: &mut Rng, nlines: usize, fixed_cols: Option<usize>) -> String 
             if k > 0 {
                 s += if rng.chance(0.1) { "\t" } else { " " };
             }
-            if k < 2 && nlines < 1000 && rng.chance(0.15) {
+            if free && rng.chance(0.3) {
+                s += *rng.pick(&FREE_VALUES);
+            } else if k < 2 && nlines < 1000 && rng.chance(0.15) {
                 // sexagesimal with a hemisphere letter
                 let d = vals[k].floor();
                 let m = ((vals[k] - d) * 60.0).floor();
@@ -269,7 +282,8 @@ fn expected(op_text: &str, inverse: bool, roundtrip: bool, input: &[[f64; 4]]) -
 fn ordinary(h: &H, idx: u64, kp: &std::path::Path, scratch: &std::path::Path, rng: &mut Rng) {
     let (op_text, invertible) = *rng.pick(&OPERATIONS);
     let nlines = *rng.pick(&[1usize, 2, 3, 7, 40, 200]);
-    let text = gen_input(rng, nlines, None);
+    let free = matches!(op_text, "addone" | "noop" | "axisswap order=2,1,4,3") || op_text.starts_with("helmert");
+    let text = gen_input_for(rng, nlines, None, free);
     let decimals = rng.below(13);
     let dim = 1 + rng.below(4);
     let z = if rng.chance(0.3) { Some(rng.short_decimal(-50.0, 900.0, 1)) } else { None };
@@ -277,7 +291,13 @@ fn ordinary(h: &H, idx: u64, kp: &std::path::Path, scratch: &std::path::Path, rn
     let inverse = invertible && rng.chance(0.25);
     // every combination of --inv and --roundtrip, also both at once (Inv then Fwd residuals)
     let roundtrip = invertible && rng.chance(0.3);
-    let mut args: Vec<String> = vec![op_text.to_string(), "-d".into(), decimals.to_string(), "-D".into(), dim.to_string()];
+    // without -D the output dimension is estimated from the input: the widest coordinate line
+    let explicit_dim = rng.chance(0.7);
+    let mut args: Vec<String> = vec![op_text.to_string(), "-d".into(), decimals.to_string()];
+    if explicit_dim {
+        args.push("-D".into());
+        args.push(dim.to_string());
+    }
     if let Some(z) = z {
         args.push(format!("--height={}", num(z)));
     }
@@ -317,6 +337,15 @@ fn ordinary(h: &H, idx: u64, kp: &std::path::Path, scratch: &std::path::Path, rn
             h.note(&format!("library refuses {op_text}: {e}"));
             return;
         }
+    };
+    let dim = if explicit_dim {
+        dim
+    } else {
+        h.class("ordinary/dimension-estimated-from-input");
+        text.lines()
+            .map(|l| l.split_whitespace().take_while(|x| !x.starts_with('#')).count().min(4))
+            .max()
+            .unwrap_or(0)
     };
     // stdin
     let r = run_kp(kp, &args, Some(&text));
